@@ -260,12 +260,18 @@ Definition cos_sin (a : Q) : Q * Q :=
   | _ => (1, 0)%Q
   end.
 
-(* [[cos, -sin, 0], [sin, cos, 0], [0, 0, 1]] @ p *)
-Definition rot_exact (a : Q) (p : V3) : V3 :=
-  let '(c, s) := cos_sin a in let '(x, y, z) := p in (c * x - s * y, s * x + c * y, z)%Q.
-(* [[1, 0, 0], [0, cos, -sin], [0, sin, cos]] @ p *)
-Definition dip_exact (a : Q) (p : V3) : V3 :=
-  let '(c, s) := cos_sin a in let '(x, y, z) := p in (x, c * y - s * z, s * y + c * z)%Q.
+(* the matrices of the code, for a given (cos, sin) pair:
+   [[cos, -sin, 0], [sin, cos, 0], [0, 0, 1]] @ p   (BlockModel / Octree centroids, xy_rotation_matrix) *)
+Definition rotz_cs (c s : Q) (p : V3) : V3 := let '(x, y, z) := p in (c * x - s * y, s * x + c * y, z)%Q.
+(* [[1, 0, 0], [0, cos, -sin], [0, sin, cos]] @ p   (yz_rotation_matrix) *)
+Definition rotx_cs (c s : Q) (p : V3) : V3 := let '(x, y, z) := p in (x, c * y - s * z, s * y + c * z)%Q.
+
+(* rotation / dip maps built from ANY pair of functions giving the cosine and sine of an angle in degrees *)
+Definition rotm_of (cosd sind : Q -> Q) (a : Q) (p : V3) : V3 := rotz_cs (cosd a) (sind a) p.
+Definition dipm_of (cosd sind : Q -> Q) (a : Q) (p : V3) : V3 := rotx_cs (cosd a) (sind a) p.
+
+Definition rot_exact (a : Q) (p : V3) : V3 := let '(c, s) := cos_sin a in rotz_cs c s p.
+Definition dip_exact (a : Q) (p : V3) : V3 := let '(c, s) := cos_sin a in rotx_cs c s p.
 
 (* ======================= executable comparison ======================= *)
 Definition vlist_eqb : list V3 -> list V3 -> bool := list_eqb veqb.
